@@ -1,13 +1,14 @@
 #!/bin/sh
-# tools/mutant.sh <Cxx> <patch-file> [check-id ...]  -- run checks against a scratch worktree with the patch applied
-# (scratch worktree /tmp/wt/<Cxx> must exist and be clean; it is restored afterwards)
+# tools/mutant.sh <Cxx> <patch-file> [check-id ...]  -- run checks against a fresh scratch worktree of /repo HEAD with the patch applied
+# (worktree /tmp/nss-mut-<Cxx>-$$ is created and removed here; /repo's working tree is never touched)
 P=$1; PATCH=$2; shift 2
 IDS=${@:-$P}
-WT=/tmp/wt/$P
-git -C $WT reset -q --hard; git -C $WT checkout -q -f --detach $(git -C /repo rev-parse HEAD) || exit 9
-git -C $WT apply $PATCH || { echo "patch does not apply"; exit 9; }
-for id in $IDS; do
-  NSS_REPO=$WT /verif/check $id 2>&1 | grep -v conda | grep -E "VIOLATION|KNOWN|UNDECIDED|CHECKER|SELF-CHECK|obligations discharged|obligation " | cut -c1-260
-  echo "exit=$?"
-done
-git -C $WT checkout -q -- .
+WT=/tmp/nss-mut-$P-$$
+git -C /repo worktree add -q --detach $WT HEAD || exit 9
+for f in src/nuspacesim/_version.py src/nuspacesim/simulation/eas_optical/zsteps.cpython-312-x86_64-linux-gnu.so; do [ -f /repo/$f ] && cp /repo/$f $WT/$f; done
+if git -C $WT apply $PATCH; then
+  for id in $IDS; do
+    NSS_REPO=$WT /verif/check $id 2>&1 | grep -v conda | grep -E "VIOLATION|KNOWN|UNDECIDED|CHECKER|SELF-CHECK|obligations discharged|obligation " | cut -c1-260
+  done
+else echo "patch does not apply"; fi
+git -C /repo worktree remove --force $WT; rm -rf $WT
